@@ -14,7 +14,6 @@ def main():
     print()
     res = json.load(open(os.path.join(VERIF, "seeded", "results.json")))
     NOTES = {
-        "C01/i": "**not caught** - stated limit of the C01 check (section 9.4, round 7)",
         "C08/i": "not caught by the quick tier; caught by the thorough tier (`in-flight-bytes-exceed-congestion-window`, seed 1)",
         "C09/d": "not reported: after repair `ee46eaa` this change no longer violates the property (its demo passes on the current tree)",
         "C12/f": "the patch no longer applies after repair `962aeb8`, which it reverses in part; kept as planted mutants `path-response-before-ack` / `ack-after-path-challenge` (caught)",
